@@ -55,6 +55,9 @@ pub struct Case {
     pub cap: u8,
     pub cache: u8,
     pub ops: Vec<Op>,
+    /// capacity of the driver's local command channel (0 = the shipped 10 000)
+    #[serde(default)]
+    pub chan: u8,
 }
 
 fn range_strategy() -> impl Strategy<Value = RangeSel> {
@@ -84,8 +87,8 @@ fn op_strategy() -> impl Strategy<Value = Op> {
 }
 
 pub fn case_strategy() -> BoxedStrategy<Case> {
-    (0u8..4, 1u8..=(vh_core::depth(12, 15) as u8), prop_oneof![Just(1u8), Just(4u8), Just(25u8)], proptest::collection::vec(op_strategy(), 1..vh_core::depth(80, 260)))
-        .prop_map(|(node, cap, cache, ops)| Case { node, cap, cache, ops })
+    (0u8..4, 1u8..=(vh_core::depth(12, 15) as u8), prop_oneof![Just(1u8), Just(4u8), Just(25u8)], proptest::collection::vec(op_strategy(), 1..vh_core::depth(80, 260)), prop_oneof![3 => Just(0u8), 1 => 1u8..5])
+        .prop_map(|(node, cap, cache, ops, chan)| Case { node, cap, cache, ops, chan })
         .boxed()
 }
 
@@ -181,7 +184,9 @@ pub fn check(case: &Case, ctx: &mut Ctx) {
     let kp = keypair_from_seed(0x1000 + case.node as u64);
     let cap = case.cap.max(1) as usize;
     let store_cfg = Some((cap, case.cache.max(1) as usize));
-    let sim = DriverSim::new_node(dir.path(), kp.clone(), store_cfg);
+    let chan = (case.chan > 0).then_some(case.chan as usize);
+    let sim = DriverSim::new_node_chan(dir.path(), kp.clone(), store_cfg, chan);
+    ctx.label_if(case.chan > 0, "small_command_channel");
     let uni = universe(case.node, &sim.self_addr_bytes, NKEYS);
     let mut w = World { sim, uni };
 
@@ -384,7 +389,7 @@ pub fn check(case: &Case, ctx: &mut Ctx) {
                 let self_bytes = w.sim.self_addr_bytes.clone();
                 let uni = w.uni.clone();
                 drop(w);
-                let sim = DriverSim::new_node(dir.path(), kp.clone(), store_cfg);
+                let sim = DriverSim::new_node_chan(dir.path(), kp.clone(), store_cfg, chan);
                 assert_eq!(sim.self_addr_bytes, self_bytes);
                 w = World { sim, uni };
                 w.sim.quiesce_tasks();
